@@ -1,7 +1,8 @@
 (* Decoding of C11 cases and verdicts. *)
 From Coq Require Import List NArith Bool.
 From FS Require Import Sx Model.Path Model.Stat Model.Tree Model.Pattern Model.FilterWalk
-  Model.Hardlinks Model.Validator Model.Converge Model.SenderView Glue.C10G.
+  Model.Hardlinks Model.Validator Model.Converge Model.SenderView Model.FilterOpt Glue.C10G.
+From FS Require Model.FollowLinks.
 Import ListNotations.
 Open Scope bool_scope.
 
@@ -64,9 +65,36 @@ Fixpoint content_of (p : list N) (l : list entry) : list N :=
 Definition in_late_shadow_domain (pm : bytes -> bytes -> bool) (c : cfg) (view : list node) : bool :=
   negb (forallb (fun e : entry => nls_path pm c (st_path (fst e))) (walk_root view)).
 
+(* the real FollowLinks answer as the harness sends it: (#0 nil? (path ...)) *)
+Definition dec_fl (s : sx) : option (bool * list bytes) :=
+  match s with
+  | SL [SN 0; n; l] => b <- sx_bool n ;; ps <- sx_list sx_B l ;; Some (b, ps)
+  | _ => None
+  end.
+
+(* the list the property reads (= the list handed to the matcher, Model/FilterOpt.v): the user's
+   patterns in order, then the targets the IMPLEMENTATION's FollowLinks returned *)
+Definition stated_list (inc : list bytes) (fl : option (bool * list bytes)) : list bytes :=
+  match fl with
+  | Some (false, ts) => inc ++ ts
+  | _ => inc
+  end.
+
+Definition cfg_dom (pm : bytes -> bytes -> bool) (c : cfg) (view : list node) : bool :=
+  negb (in_late_shadow_domain pm c view) && cfg_star_safe c.
+
+Fixpoint list_bytes_eqb (a b : list bytes) : bool :=
+  match a, b with
+  | [], [] => true
+  | x :: a', y :: b' => bytes_eqb x y && list_bytes_eqb a' b'
+  | _, _ => false
+  end.
+
+(* kind 1102: input = (view includes excludes [follow]);
+   impl = (send_err recv_err hung stats_announced dest_raw opens ptable fl). *)
 Definition run_1102 (input impl : sx) : sx :=
   match input, impl with
-  | SL [v; inc; exc], SL [SN se; SN re; SN hung; stl; dr; ops; pt] =>
+  | SL (v :: inc :: exc :: rest), SL [SN se; SN re; SN hung; stl; dr; ops; pt; fls] =>
     match dec_view v, sx_list dec_stat stl, sx_list dec_raw dr, sx_list dec_open ops with
     | Some view, Some announced, Some dest, Some opens =>
       let full := walk_root view in
@@ -78,19 +106,27 @@ Definition run_1102 (input impl : sx) : sx :=
       let announced_reg (p : list N) := existsb (fun s => bytes_eqb (st_path s) p && mode_is_regular (st_mode s)) announced in
       let opens_ok := forallb (fun o => let '(p, opened, same) := o in
                                         if announced_reg p then opened && same else negb opened) opens in
-      let code := (if ok_stream then 0 else 1) + (if success then 0 else 2) + (if conv then 0 else 4) + (if opens_ok then 0 else 8) in
-      let shadow :=
+      (* the announced view is the reference-filtered source: reset_spec of C10's naive reference
+         for the list the property reads (user patterns in order, then the follow targets) *)
+      let '(shadow, ref_ok) :=
         match sx_list dec_pentry pt, dec_raws inc, dec_raws exc with
         | Some tbl, Some ri, Some re' =>
-          match mk_cfg ri re' with
-          | Some c => in_late_shadow_domain (table_pmatch tbl) c view
-          | None => false
+          let pm := table_pmatch tbl in
+          let ls := stated_list ri (match rest with _ :: _ => dec_fl fls | [] => None end) in
+          match mk_cfg ls re' with
+          | Some cs =>
+            let sh := in_late_shadow_domain pm cs view in
+            let judged := wf_source view && source_links_ok view && cfg_dom pm cs view in
+            (sh, negb judged || sx_eqb (enc_stats (reset_spec (reference (keep_naive pm cs) id_map view))) (enc_stats announced))
+          | None => (false, true)
           end
-        | _, _, _ => false
+        | _, _, _ => (false, true)
         end in
+      let code := (if ok_stream then 0 else 1) + (if success then 0 else 2) + (if conv then 0 else 4)
+                  + (if opens_ok then 0 else 8) + (if ref_ok then 0 else 16) in
       (* walk and Open may only disagree (and a file may only arrive empty) in the late-shadow domain *)
       let s := if shadow && ok_stream && success then [sig s_late_shadow] else [] in
-      verdict impl impl (ok_stream && success && conv && opens_ok)
+      verdict impl impl (ok_stream && success && conv && opens_ok && ref_ok)
               (SL (s ++ SN code :: (if success then converged_diag false [] src dest else [])))%N
     | _, _, _, _ => v_malformed
     end
@@ -168,6 +204,78 @@ Definition run_1103 (input impl : sx) : sx :=
         | _, _, _, _ => v_malformed
         end
       | _ => v_malformed
+      end
+    | _, _, _, _ => v_malformed
+    end
+  | _ => v_malformed
+  end.
+
+(* kind 1104: kind 1103 for a FilterOpt with FollowPaths (no map function).
+   input = (view include-raw exclude-raw follow-raw);
+   impl  = (#ffff) | (#0 fl exc ptable calls opens vverdict hverdict), fl = the real FollowLinks answer.
+   Model: C18's model of FollowLinks, the assembly of Model/FilterOpt.v, then sender_view / filter_open.
+   Specification on the implementation's output:
+     S1 stream valid (both validators, modelled and real);
+     S2 calls = reset_spec of the naive reference for the STATED list (user patterns in order ++ the
+        targets the real FollowLinks returned): the view is what the include list says;
+     S3 walk and Open agree on every regular file of the source (no map function);
+   S2/S3 judged outside the late-shadow / unsafe-literal domains of that list. *)
+Definition run_1104 (input impl : sx) : sx :=
+  match input with
+  | SL [v; inc; exc; fol] =>
+    match dec_view v, dec_raws inc, dec_raws exc, dec_raws fol with
+    | Some view, Some incr_, Some excr, Some follow =>
+      match impl, mk_cfg_opt view incr_ excr follow with
+      | _, FollowLinks.OutOfFuel => v_malformed
+      | SL [SN 65535], FollowLinks.Ok None => v_ok
+      | SL [SN 65535], FollowLinks.Ok (Some _) => v_malformed      (* syntax errors are not modelled *)
+      | SL [SN 0; fls; iexc; pt; calls; ops; vv; hv], FollowLinks.Ok oc =>
+        match sx_list dec_pentry pt, sx_list dec_stat calls, sx_list dec_open3 ops, oc with
+        | Some tbl, Some icalls, Some iopens, Some c =>
+          let pm := table_pmatch tbl in
+          let full := walk_root view in
+          let regs := filter (fun e : entry => mode_is_regular (st_mode (fst e))) full in
+          let sv := sender_view pm id_map c view in
+          let mfl := match follow with
+                     | [] => SL []
+                     | _ => match follow_targets view follow with
+                            | FollowLinks.Ok None => SL [SN 0; SN 1; SL []]
+                            | FollowLinks.Ok (Some l) => SL [SN 0; SN 0; SL (map SB l)]
+                            | FollowLinks.OutOfFuel => SL [SN 2]
+                            end
+                     end in
+          let model := SL [SN 0; mfl; enc_side (c_exc c); enc_stats sv;
+                           SL (map (fun e : entry => SL [SB (st_path (fst e)); of_bool (filter_open pm c (st_path (fst e)))]) regs);
+                           of_optnat (run_validator (items sv)); of_optnat (hardlink_check sv)] in
+          let impl' := SL [SN 0; fls; iexc; calls; ops; vv; hv] in
+          let ls := stated_list incr_ (match follow with [] => None | _ => dec_fl fls end) in
+          match mk_cfg ls excr with
+          | Some cs =>
+            let src_ok := wf_source view && source_links_ok view in
+            let shadow := in_late_shadow_domain pm cs view in
+            let dom := cfg_dom pm cs view in
+            let s1 := sx_eqb (of_optnat (run_validator (items icalls))) (SL [])
+                      && sx_eqb (of_optnat (hardlink_check icalls)) (SL [])
+                      && sx_eqb vv (SL []) && sx_eqb hv (SL []) in
+            let want (c0 : cfg) := enc_stats (reset_spec (reference (keep_naive pm c0) id_map view)) in
+            let s2 := sx_eqb (want cs) calls in
+            let announced (p : list N) := existsb (fun s => bytes_eqb (st_path s) p) icalls in
+            let s3 := forallb (fun o => let '(p, a) := o in if announced p then N.eqb a 1 else N.eqb a 0) iopens
+                      && Nat.eqb (length iopens) (length regs) in
+            let j1 := negb src_ok || s1 in
+            let j2 := negb (src_ok && dom) || s2 in
+            let j3 := negb (src_ok && dom) || s3 in
+            let code := (if j1 then 0 else 1) + (if j2 then 0 else 2) + (if j3 then 0 else 4) in
+            if src_ok && shadow && negb s3 && j1
+            then verdict model impl' false (SL [sig s_late_shadow; SN 16])%N
+            else verdict model impl' (j1 && j2 && j3)
+                         (SL [SN code; of_bool src_ok; of_bool shadow; of_bool dom])%N
+          | None => v_malformed
+          end
+        | Some _, Some _, Some _, None => v_diff (SL [SN 65535])
+        | _, _, _, _ => v_malformed
+        end
+      | _, _ => v_malformed
       end
     | _, _, _, _ => v_malformed
     end
